@@ -90,6 +90,25 @@ theorem C05_partial_fails_before_writes (ps : Props) (g g' : G) (src : List Clau
     rw [h] at hinf
     cases hinf
 
+/-- a multi-item SET (also ON CREATE SET / ON MATCH SET, which go through `applySet`)
+evaluates every right-hand side of the row before it writes anything: if the evaluation of
+any item fails — whatever its position — the row fails and there is no graph to leave behind
+(class of the seeded change C05-a, which wrote item by item) -/
+theorem C05_set_items_evaluated_before_any_write (g : G) (ps : Props) (row : Row)
+    (items : List SetItem) (e : Err) (h : mapR (evalSetItem g ps row) items = .error e) :
+    applySet g ps row items = .error e := by
+  simp [applySet, h, bind, Except.bind]
+
+/-- … hence, in the streaming execution, a SET that fails on its first row leaves the graph
+exactly as it was, for any number of items and any failing item -/
+theorem C05_partial_set_first_row (ps : Props) (g : G) (row : Row) (rows : List Row)
+    (items : List SetItem) (e : Err) (h : mapR (evalSetItem g ps row) items = .error e) :
+    streamRows (fun g row => (applyWrite G.delNode ps (.set items) g row).map (·.1)) g (row :: rows)
+      = (g, some e) := by
+  apply C05_partial_first_row
+  simp [applyWrite, C05_set_items_evaluated_before_any_write g ps row items e h, bind, Except.bind,
+    Except.map]
+
 /-- the executable specification evaluated by the harness, satisfied by S -/
 theorem C05_model_refines_spec (ps : Props) (g : G) (q : Stmt) :
     specAtomic g (match execAtomic ps g q with
